@@ -679,7 +679,7 @@ impl FinishedSession {
         let _write_guard = self.take_global_guard.then(|| nomt.access_lock.write());
 
         {
-            let mut shared = nomt.shared.lock();
+            let shared = nomt.shared.lock();
             if shared.root != self.prev_root {
                 anyhow::bail!(
                     "Changeset no longer valid (expected previous root {:?}, got {:?})",
@@ -687,14 +687,21 @@ impl FinishedSession {
                     shared.root
                 );
             }
-            shared.root = Root(self.merkle_output.root);
-            shared.last_commit_marker = None;
         }
 
+        // Record the rollback delta before publishing the new root: if the append fails, the
+        // commit is reported as failed and the handle must still show the previous state. No other
+        // writer can intervene, they are excluded by the write guard.
         if let Some(rollback_delta) = self.rollback_delta {
             // UNWRAP: if rollback_delta is `Some`, then rollback must be also `Some`.
             let rollback = nomt.store.rollback().unwrap();
             rollback.commit(rollback_delta)?;
+        }
+
+        {
+            let mut shared = nomt.shared.lock();
+            shared.root = Root(self.merkle_output.root);
+            shared.last_commit_marker = None;
         }
 
         nomt.store.commit(
@@ -794,7 +801,7 @@ impl Overlay {
         let _write_guard = nomt.access_lock.write();
 
         {
-            let mut shared = nomt.shared.lock();
+            let shared = nomt.shared.lock();
             if shared.root != self.prev_root() {
                 anyhow::bail!(
                     "Changeset no longer valid (expected previous root {:?}, got {:?})",
@@ -802,14 +809,19 @@ impl Overlay {
                     shared.root
                 );
             }
-            shared.root = root;
-            shared.last_commit_marker = Some(self.mark_committed());
         }
 
+        // Record the rollback delta before publishing the new root (see `FinishedSession::commit`).
         if let Some(rollback_delta) = rollback_delta {
             // UNWRAP: if rollback_delta is `Some`, then rollback must be also `Some`.
             let rollback = nomt.store.rollback().unwrap();
             rollback.commit(rollback_delta)?;
+        }
+
+        {
+            let mut shared = nomt.shared.lock();
+            shared.root = root;
+            shared.last_commit_marker = Some(self.mark_committed());
         }
 
         nomt.store
@@ -850,7 +862,7 @@ impl Overlay {
         }
 
         {
-            let mut shared = nomt.shared.lock();
+            let shared = nomt.shared.lock();
             if shared.root != self.prev_root() {
                 anyhow::bail!(
                     "Changeset no longer valid (expected previous root {:?}, got {:?})",
@@ -858,14 +870,19 @@ impl Overlay {
                     shared.root
                 );
             }
-            shared.root = root;
-            shared.last_commit_marker = Some(self.mark_committed());
         }
 
+        // Record the rollback delta before publishing the new root (see `FinishedSession::commit`).
         if let Some(rollback_delta) = rollback_delta {
             // UNWRAP: if rollback_delta is `Some`, then rollback must be also `Some`.
             let rollback = nomt.store.rollback().unwrap();
             rollback.commit(rollback_delta)?;
+        }
+
+        {
+            let mut shared = nomt.shared.lock();
+            shared.root = root;
+            shared.last_commit_marker = Some(self.mark_committed());
         }
 
         nomt.store
